@@ -1783,7 +1783,13 @@ impl<'a> AstResolver<'a> {
             ty.exports.entry(name).or_insert(*item);
         }
 
-        if let Some(missing) = replacements.values().next() {
+        // Report the first unmatched item in source order (the map's iteration
+        // order is not deterministic)
+        if let Some(missing) = include
+            .with
+            .iter()
+            .find(|item| replacements.contains_key(item.from.string))
+        {
             return Err(Error::MissingWorldInclude {
                 world: include.world.name().to_owned(),
                 name: missing.from.string.to_owned(),
